@@ -105,16 +105,34 @@ func c15SmallConfigs() []cfg.Config {
 		},
 		Decorators: []cfg.Decorator{{Tag: "t", Fn: "fx/lib.Decorate", Args: []cfg.Val{cfg.Str("%p0%")}}},
 	}
-	return []cfg.Config{a, b}
+	// c: no parameters in the way - a placeholder without scope, a direct and an indirect dependant without scope
+	c := cfg.Config{
+		Meta: cfg.Meta{Pkg: sp("app")},
+		Services: []cfg.Service{
+			{Name: "s0", Todo: bp(true)},
+			{Name: "s1", Ctor: sp("fx/lib.NewObj"), Args: []cfg.Val{cfg.Str("@s0")}},
+			{Name: "s2", Ctor: sp("fx/lib.NewObj"), Fields: []cfg.Field{{Name: "FieldA", Val: cfg.Str("@s1")}}},
+		},
+	}
+	return []cfg.Config{a, b, c}
 }
 
 func c15Alphabet(i int) []fx.Op {
+	if i == 2 {
+		return []fx.Op{
+			{Op: "get", ID: "s1", Ctx: "A"}, {Op: "get", ID: "s1", Ctx: "B"}, {Op: "get", ID: "s2", Ctx: "A"}, {Op: "get", ID: "s2", Ctx: "B"}, {Op: "get", ID: "s2"},
+			{Op: "get", ID: "s0", Ctx: "A"},
+			{Op: "overrideService", ID: "s0", Val: &fx.Lit{K: "ctx", S: "mc"}}, {Op: "overrideService", ID: "s0", Val: &fx.Lit{K: "str", S: "m1"}},
+		}
+	}
 	base := []fx.Op{
 		{Op: "param", ID: "p0"}, {Op: "param", ID: "p1"},
 		{Op: "get", ID: "s1"}, {Op: "get", ID: "s2"},
 		{Op: "overrideParam", ID: "p0", Val: &fx.Lit{K: "int", I: 7}},
 		{Op: "overrideParam", ID: "p0", Val: &fx.Lit{K: "str", S: "z"}},
 		{Op: "overrideService", ID: "s0", Val: &fx.Lit{K: "str", S: "m1"}},
+		{Op: "overrideService", ID: "s0", Val: &fx.Lit{K: "ctx", S: "mc"}}, // the placeholder is supplied as a contextual service
+		{Op: "get", ID: "s1", Ctx: "A"}, {Op: "get", ID: "s1", Ctx: "B"},
 	}
 	if i == 0 {
 		base = append(base, fx.Op{Op: "param", ID: "p2"}, fx.Op{Op: "param", ID: "p3"})
@@ -155,7 +173,7 @@ func drawOverrideHistory(rt *rapid.T, c cfg.Config, maxLen int) []fx.Op {
 			lit := rapid.SampledFrom([]fx.Lit{{K: "int", I: 41}, {K: "str", S: "over"}, {K: "bool", B: true}, {K: "float", F: 2.5}}).Draw(rt, "lit")
 			ops = append(ops, fx.Op{Op: "overrideParam", ID: rapid.SampledFrom(params).Draw(rt, "oparam"), Val: &lit})
 		case k == 8 && len(svcs) > 0:
-			ops = append(ops, fx.Op{Op: "overrideService", ID: rapid.SampledFrom(svcs).Draw(rt, "osvc"), Val: &fx.Lit{K: "str", S: rapid.SampledFrom([]string{"m1", "m2"}).Draw(rt, "marker")}})
+			ops = append(ops, fx.Op{Op: "overrideService", ID: rapid.SampledFrom(svcs).Draw(rt, "osvc"), Val: &fx.Lit{K: rapid.SampledFrom([]string{"str", "str", "ctx"}).Draw(rt, "oscope"), S: rapid.SampledFrom([]string{"m1", "m2"}).Draw(rt, "marker")}})
 		default:
 			ops = append(ops, fx.Op{Op: "counters"})
 		}
@@ -225,7 +243,7 @@ func TestC15(t *testing.T) {
 	if len(members) > 0 {
 		behBatch(t, behCase{Members: members}, c15NonTrivial, c15Check, c15OnReject)
 	}
-	col.Exhaustive("every history of length <= 3 (quick) / 4 (thorough) over {GetParam x2-3, Get x2, GetTaggedBy, OverrideParam x2, OverrideService x1-2} on two small configurations with todo parameters/services, dependants, counted parameter functions, a decorator and three scopes")
+	col.Exhaustive("every history of length <= 3 (quick) / 4 (thorough) over {GetParam x2-3, Get x2, GetTaggedBy, OverrideParam x2, OverrideService x1-2} on three small configurations with todo parameters/services (the placeholder service is also supplied as a contextual service), dependants, counted parameter functions, a decorator and three scopes")
 
 	// (3) random configurations with todo placeholders and random histories
 	batch := pick(20, 32)
